@@ -374,14 +374,28 @@ def add_relations(rng, prog, feat):
     nconf = rng.randint(*f["n_conflicts"])
     nbef = rng.randint(*f["n_before"])
     cands = []
+    # relations are lifted to every calling transaction: prefer bodies with several callers
+    weights = [1 + 2 * max(0, len(a.trans_for.get(i, [])) - 1) for i in ids]
     for _ in range(nconf):
-        x, y = rng.sample(ids, 2)
+        x = rng.choices(ids, weights)[0]
+        y = rng.choices(ids, weights)[0]
+        if x == y:
+            x, y = rng.sample(ids, 2)
         cands.append({"kind": "conflict", "a": x, "b": y, "prio": rng.choice(["U", "L", "R"]) if f["prio"] else "U"})
     for _ in range(nbef):
         x, y = rng.sample(ids, 2)
         if a.bodies[x].order > a.bodies[y].order:
             x, y = y, x
         cands.append({"kind": "before", "a": x, "b": y, "rdep": bool(f["rdep"] and rng.random() < 0.5)})
+    # both an ordering relation and a conflict on one and the same pair of bodies (either declared first)
+    confs = [c for c in cands if c["kind"] == "conflict"]
+    if confs and f["n_before"][1] > 0 and rng.random() < 0.35:
+        c0 = rng.choice(confs)
+        x, y = c0["a"], c0["b"]
+        if a.bodies[x].order > a.bodies[y].order:
+            x, y = y, x
+        pos = cands.index(c0) + (0 if rng.random() < 0.6 else 1)
+        cands.insert(pos, {"kind": "before", "a": x, "b": y, "rdep": False})
     if rng.random() < f.get("p_self_conflict_excl", 0.0):
         # the shape of fixed finding F9: one transaction calls x and y in different alternatives of one
         # control structure and x.add_conflict(y, priority)
